@@ -75,6 +75,7 @@ class Abstraction:
         self.fns = {}        # original decl (by ast id) -> abstract decl
         self.consts = {}
         self.used = set()
+        self.rel = set()     # (relation, id of the literal argument) that occur: literal-vs-literal facts are generated for these only
 
     # ------------------------------------------------------------------ symbols
     def lit(self, s):
@@ -159,10 +160,13 @@ class Abstraction:
         if k == z3.Z3_OP_SEQ_AT:
             return aat(a[0], a[1])
         if k == z3.Z3_OP_SEQ_PREFIX:
+            self.rel.add(('pre', a[0].get_id()))
             return apre(a[0], a[1])
         if k == z3.Z3_OP_SEQ_SUFFIX:
+            self.rel.add(('suf', a[0].get_id()))
             return asuf(a[0], a[1])
         if k == z3.Z3_OP_SEQ_CONTAINS:
+            self.rel.add(('con', a[1].get_id()))
             return acon(a[0], a[1])
         if k == z3.Z3_OP_SEQ_INDEX:
             return aidx(a[0], a[1], a[2] if len(a) > 2 else z3.IntVal(0))
@@ -252,9 +256,12 @@ class Abstraction:
                     ax.append(aat(c, len(s) - 1) == one[s[-1]])
             for t, dd in lits:
                 if t != s:
-                    ax.append(apre(dd, c) == z3.BoolVal(s.startswith(t)))
-                    ax.append(asuf(dd, c) == z3.BoolVal(s.endswith(t)))
-                    ax.append(acon(c, dd) == z3.BoolVal(t in s))
+                    if ('pre', dd.get_id()) in self.rel:
+                        ax.append(apre(dd, c) == z3.BoolVal(s.startswith(t)))
+                    if ('suf', dd.get_id()) in self.rel:
+                        ax.append(asuf(dd, c) == z3.BoolVal(s.endswith(t)))
+                    if ('con', dd.get_id()) in self.rel:
+                        ax.append(acon(c, dd) == z3.BoolVal(t in s))
             ax.append(apre(c, aempty) == z3.BoolVal(False))
             ax.append(asuf(c, aempty) == z3.BoolVal(False))
             if 1 < len(s) <= 8:
@@ -329,8 +336,16 @@ def _rebuild(e, d, k, a):
         raise Unsupported('operator %s: %s' % (d.name(), ex))
 
 
+_SHARED = [None]
+_KEEP = []     # the original formulas are kept alive: the memo is keyed by their ast ids
+
+
 def abstract(formulas):
     """-> list of formulas over AStr (incl. axioms); raises Unsupported."""
-    ab = Abstraction()
+    ab = _SHARED[0]
+    if ab is None or len(ab.cache) > 400000:
+        ab = _SHARED[0] = Abstraction()
+        del _KEEP[:]
+    _KEEP.extend(formulas)
     out = [ab.tr(f) for f in formulas]
     return ab.axioms() + out
